@@ -14,13 +14,22 @@ package date
 //@ axiom sof_once: forall d time.Time :: {sof(d, 0)} sof(d, 0) == d
 //@ axiom sof_daily: forall d time.Time :: {sof(d, 1)} sof(d, 1) == d
 //
+// For the week the calendar functions are plain day arithmetic (weekday(d) = (d + 1) mod 7 with day 0 =
+// Monday 0001-01-01): these two axioms DEFINE sof/eof for weeks, and StartOf/EndOf are verified against
+// them (and against sof_once/sof_daily); only the month/quarter/year cases - which need the civil
+// calendar (time.Date, Year, Month) - remain trusted clauses, validated by the exhaustive stand-in.
+//@ axiom sof_weekly: forall d time.Time :: {sof(d, 2)} sof(d, 2) == d - ((weekday(d) + 6) % 7)
+//@ axiom eof_weekly: forall d time.Time :: {eof(d, 2)} eof(d, 2) == d + ((7 - weekday(d)) % 7)
+//@ axiom eof_once: forall d time.Time :: {eof(d, 0)} eof(d, 0) == d
+//@ axiom eof_daily: forall d time.Time :: {eof(d, 1)} eof(d, 1) == d
+//
 //@ func StartOf
-//@   trusted
-//@   ensures result == sof(d, p)
+//@   ensures @days: 0 <= p && p <= 2 ==> result == sof(d, p)
+//@   ensures [trusted] @calendar: p < 0 || p > 2 ==> result == sof(d, p)
 //
 //@ func EndOf
-//@   trusted
-//@   ensures result == eof(d, p)
+//@   ensures @days: 0 <= p && p <= 2 ==> result == eof(d, p)
+//@   ensures [trusted] @calendar: p < 0 || p > 2 ==> result == eof(d, p)
 //
 //@ func (Period).Clip
 //@   ensures result.Start == (p2.Start > p.Start ? p2.Start : p.Start)
